@@ -36,12 +36,12 @@ Definition lin_parts_tie (file : list N) : option (list (N * N * N) * N) :=
       let fuel := length file in
       let cont := fun l => af_dedup (map (af_container objs) l) in
       let pages := ar_pages r in
-      let root := match dict_get (sf_trailer sf) n_Root with Some (PRef x _) => x | _ => 0 end in
-      let catd := match af_find objs root with Some c => match so_val c with PDict d => d | _ => [] end | None => [] end in
+      let root := match dict_get (sf_trailer sf) n_Root with Some (SpRef x _) => x | _ => 0 end in
+      let catd := match af_find objs root with Some c => match so_val c with SpDict d => d | _ => [] end | None => [] end in
       let page_sets := map (fun p => cont (af_page_needs fuel objs p)) pages in
       let thumb_sets := map (fun p => match af_find objs p with
                                       | Some o => match so_val o with
-                                                  | PDict d => match dict_get d afn_Thumb with
+                                                  | SpDict d => match dict_get d afn_Thumb with
                                                                | Some v => cont (af_closure fuel objs (af_refs v) [])
                                                                | None => []
                                                                end
@@ -52,7 +52,7 @@ Definition lin_parts_tie (file : list N) : option (list (N * N * N) * N) :=
          the page tree) is entered like a page *)
       let top_closure := fun v =>
         match v with
-        | PRef n _ => match af_find objs n with
+        | SpRef n _ => match af_find objs n with
                       | Some o => if af_has_type afn_Page (so_val o)
                                   then af_closure fuel objs (af_refs_skip [afn_Parent; afn_Thumb] (so_val o)) [n]
                                   else af_closure fuel objs (af_refs v) []
@@ -60,12 +60,12 @@ Definition lin_parts_tie (file : list N) : option (list (N * N * N) * N) :=
                       end
         | _ => af_closure fuel objs (af_refs v) []
         end in
-      let root_sets := map (fun kv => (fst kv, match snd kv with PNull => [] | v => cont (top_closure v) end)) catd in
+      let root_sets := map (fun kv => (fst kv, match snd kv with SpNull => [] | v => cont (top_closure v) end)) catd in
       let trailer_sets := flat_map (fun kv => if beq (fst kv) n_Root then [] else
-                                              match snd kv with PNull => [] | v => [(fst kv, cont (top_closure v))] end)
+                                              match snd kv with SpNull => [] | v => [(fst kv, cont (top_closure v))] end)
                                    (sf_trailer sf) in
       let use_outl := match dict_get catd afn_PageMode, dict_get catd afn_Outlines with
-                      | Some (PName m), Some _ => beq m afn_UseOutlines
+                      | Some (SpName m), Some _ => beq m afn_UseOutlines
                       | _, _ => false end in
       let indexed := fun (sets : list (list N)) => combine (map N.of_nat (seq 0 (length sets))) sets in
       let users_of := fun c =>
@@ -84,7 +84,7 @@ Definition lin_parts_tie (file : list N) : option (list (N * N * N) * N) :=
           match af_off o with
           | None => []
           | Some off =>
-              if (off =? h0) || af_has_type n_XRef (so_val o) || (match so_val o with PDict d => match dict_get d afn_Linearized with Some _ => true | None => false end | _ => false end)
+              if (off =? h0) || af_has_type n_XRef (so_val o) || (match so_val o with SpDict d => match dict_get d afn_Linearized with Some _ => true | None => false end | _ => false end)
               then [] else
               let us := users_of (so_num o) in
               let mp := match us with [] => 0 | _ => lc_part use_outl (lc_classify us) end in
